@@ -203,8 +203,8 @@ def configs(thorough, seed):
                 if not col and (acc == 2 or sym):
                     continue
                 i += 1
-                if not thorough and (i + seed) % 23:
-                    continue
+                if (i + seed) % (4 if thorough else 23):
+                    continue  # rotating share of the box (see run.cap)
                 kk = dict(damping=0.05, factor_decay=0.5, kl_clip=1e-3,
                           lr=0.1, compute_method=m,
                           compute_eigenvalue_outer_product=pre,
@@ -373,8 +373,8 @@ def main(run: core.Run):
     run.assumptions += ['simdist per-group FIFO matching stands in for '
                         'gloo/NCCL', 'GPT-NeoX paths are covered by '
                         'C11/C12/C18 with the same oracle']
-    if not thorough:
-        run.cap('quick explores 1/23 of the BFS configuration box per seed')
+    run.cap(('thorough explores 1/4' if thorough else 'quick explores 1/23')
+            + ' of the BFS configuration box per seed (rotating)')
 
 
 def replay(run, data):
